@@ -174,6 +174,16 @@ def discharge(ob: Obligation, rlimit):
         return dict(result="proved", backend=backend, ms=round(ms, 1))
     if r == z3.sat:
         model = s.model()
+        # prefer a small counter-model (replayable natively): re-solve with all input sizes bounded; the first sat stays valid if none is found
+        sizes = size_terms(ob)
+        if sizes:
+            for b in (2, 3, 5):
+                r2, s2, ms2 = check(ob.hyps, ob.goal, 3_000_000, extra=[z3.And(t >= 0, t <= b) for t in sizes])
+                ms += ms2
+                if r2 == z3.sat:
+                    model = s2.model()
+                    backend += f"+small-model(size<={b})"
+                    break
     else:
         sizes = size_terms(ob)
         if sizes:
